@@ -57,6 +57,24 @@ def sel_text(sel) -> str:
     return one(sel)
 
 
+def sel_text_v4(sel) -> str | None:
+    """the version-4 spelling: `neighbor <ip> [key value]...`, several joined by `, `; every neighbor = no prefix at all.
+    None when this selector has no v4 spelling (the `*` address with terms)"""
+    def one(d):
+        return 'neighbor ' + d['ip'] + ''.join(f' {k} {v}' for k, v in d.get('terms', {}).items())
+
+    if sel == '*':
+        return ''
+    defs = sel if isinstance(sel, list) else [sel]
+    if any(d['ip'] == '*' for d in defs):
+        return None
+    return ', '.join(one(d) for d in defs)
+
+
+V4_QUERY = {'system version': 'version', 'rib show out': 'show adj-rib out', 'rib show in': 'show adj-rib in', 'session ping': 'ping'}
+V4_ACK = {'enable': 'enable-ack', 'disable': 'disable-ack', 'silence': 'silence-ack'}
+
+
 def matches(d: dict, nb: dict) -> bool:
     if d['ip'] != '*' and d['ip'] != nb['peer_ip']:
         return False
@@ -146,6 +164,15 @@ def generate(rng, tier: str, index: int) -> dict:
         'pipe': rng.choice([None, None, {'capacity': rng.choice([1, 5, 30, 200]), 'refill_every': rng.choice([0.01, 0.2, 1.0]), 'eagain': rng.randint(0, 5)}]),
         'sync_loss': rng.chance(0.12),
     }  # fmt: skip
+    # API version 4: the action-first spelling (`neighbor <ip> announce ...`, `announce ...`, `enable-ack`, `show adj-rib out`) mixed,
+    # command by command, with the version-6 spelling the version-4 dispatcher also takes
+    plan['version'] = rng.choice([6, 6, 4])
+    if plan['version'] == 4:
+        plan['knobs'] = dict(plan['knobs'], env={'api.version': 4})
+        for c in plan['cmds']:
+            c['v4'] = rng.chance(0.6)
+            if c['k'] == 'mgroup':
+                c['k'] = 'group'  # `group start` is not a version-4 command; the one-line form goes through its `peer` prefix
     # the helper dies with an unterminated line (and possibly an open group) behind it and is respawned under the same name
     plan['crash'] = None if plan['sync_loss'] or not rng.chance(0.15) else {'group': rng.chance(0.4), 'cut': rng.randint(1, 50), 'exit_after': rng.choice([0.0, 0.05, 0.5])}
     if plan['pipe'] and any(c['k'] == 'long' for c in cmds):
@@ -173,6 +200,8 @@ def build_commands(plan: dict):
             if k == 'wd':
                 r['v'] = None
             text = f'peer {sel_text(c["sel"])} {"announce" if k == "ann" else "withdraw"} {RW.route_text(r, variants)}'
+            if c.get('v4') and sel_text_v4(c['sel']) is not None:
+                text = f'{sel_text_v4(c["sel"])} {"announce" if k == "ann" else "withdraw"} {RW.route_text(r, variants)}'.strip()
             if sel:
                 expect = 'done'
                 effects = [(i, k, c['route']) for i in sel]
@@ -188,10 +217,10 @@ def build_commands(plan: dict):
             text = c['text']
             expect = None
         elif k == 'query':
-            text = c['text']
+            text = V4_QUERY.get(c['text'], c['text']) if c.get('v4') else c['text']
             expect = 'done'
         elif k == 'ack':
-            text = f'session ack {c["mode"]}'
+            text = V4_ACK[c['mode']] if c.get('v4') else f'session ack {c["mode"]}'
             if c['mode'] == 'enable':
                 ack = True
                 acked = True
@@ -266,7 +295,7 @@ def execute(plan: dict) -> dict:
     cmds = build_commands(plan)
     stream = ''.join(c['text'] + '\n' for c in cmds).encode()
 
-    probes = {'lines': len(cmds), 'reads': 0, 'eagain': 0, 'partial_writes': 0, 'sync_loss': 0, 'line_split_across_reads': 0, 'multi_line_reads': 0}
+    probes = {'api_v4_runs': int(plan.get('version') == 4), 'commands_in_v4_spelling': sum(1 for c in plan['cmds'] if c.get('v4')), 'lines': len(cmds), 'reads': 0, 'eagain': 0, 'partial_writes': 0, 'sync_loss': 0, 'line_split_across_reads': 0, 'multi_line_reads': 0}
     faults = {'pipe_backpressure': int(bool(plan['pipe'])), 'chunked_reads': int(bool(plan['chunks'])), 'sync_session_loss': 0}
 
     # deliver the helper's output in pieces
@@ -321,7 +350,8 @@ def execute(plan: dict) -> dict:
         state['gen_before'] = h.generation
         state['crash_at'] = w.loop.mono
         pre = b'session ack enable\n'
-        if cr['group']:
+        if cr['group'] and plan.get('version', 6) != 4:
+            # (under API version 4 a bare `announce route` is a complete command for every neighbor, not a member of the open group)
             pre += b'group start\nannounce route 10.79.1.0/24 next-hop 10.0.0.9 med 100\n'
         partial = b'peer * announce route 10.79.0.0/24 next-hop 10.0.0.9 med 100 community [ 65000:1 65000:2 ]'[: 20 + cr['cut']]
         h.emit(pre + partial)
